@@ -103,6 +103,8 @@ def run_property(prop, tier, seed):
                 if mism:
                     r["result"] = "inconclusive"
                 for v, n in zip([v for v in s["violations"] if "inputs" in v], nat[len(cases):]):
+                    if j.get("msg_prefix") and v["kind"] == "check" and not v["msg"].startswith(j["msg_prefix"]):
+                        continue   # assertion belongs to the sibling property that shares this harness
                     reproduced = n is not None and n["outcome"] in ("panic", "hang", "crash")
                     entry = {"harness": h, "kind": v["kind"], "msg": v["msg"], "where": v.get("where"), "inputs": v["inputs"],
                              "native": n, "paths": v.get("count", 1)}
